@@ -1,0 +1,53 @@
+//go:build verif
+
+package transaction
+
+import (
+	"github.com/icon-project/goloop/common"
+	"github.com/icon-project/goloop/common/log"
+	"github.com/icon-project/goloop/module"
+	"github.com/icon-project/goloop/service/contract"
+)
+
+// VerifC06RawDSRTx builds a double sign report transaction from raw fields,
+// as the binary parser would (no consistency check). The harness sends it
+// through Bytes() and NewTransaction() to obtain the parsed transaction.
+func VerifC06RawDSRTx(typ string, data [][]byte, context []byte, nid int64, ts int64,
+	from *common.Address, sig *common.Signature, withReport bool) Transaction {
+	tx := new(doubleSignReportTx)
+	tx.data.Version.Value = Version3
+	tx.data.NID.Value = nid
+	tx.data.Timestamp.Value = ts
+	tx.data.DataType = contract.DataTypeDSR
+	tx.data.From = from
+	tx.data.Signature = sig
+	if withReport {
+		dsr := &contract.DoubleSignReport{Type: typ, Context: context}
+		for _, d := range data {
+			dsr.Data = append(dsr.Data, d)
+		}
+		tx.data.Data = dsr
+	}
+	return Wrap(tx)
+}
+
+type verifC06CM struct {
+	contract.ContractManager
+}
+
+func (verifC06CM) Logger() log.Logger { return log.GlobalLogger() }
+
+// VerifC06DSRHandler returns the contract handler that the real GetHandler
+// creates for a double sign report transaction.
+func VerifC06DSRHandler(tx module.Transaction) (*contract.DSRHandler, error) {
+	h, err := Unwrap(tx).(*doubleSignReportTx).GetHandler(verifC06CM{})
+	if err != nil {
+		return nil, err
+	}
+	return h.(*dsrTxHandler).handler, nil
+}
+
+func VerifC06IsDSRTx(tx module.Transaction) bool {
+	_, ok := Unwrap(tx).(*doubleSignReportTx)
+	return ok
+}
